@@ -1525,20 +1525,6 @@ class StateEngine(object):
                             )
 
                             """
-                            Tidy up self.branch_metadata for current execution_arn
-                            before republishing the state event, but only when
-                            the state being retried is itself a Map or Parallel
-                            state (its failed branches have to be wound up).
-                            Retrying a Task that merely runs inside a branch
-                            must leave the results and the unacknowledged
-                            events of its sibling branches alone.
-                            """
-                            if execution_arn in self.branch_metadata and (
-                                state_type == "Map" or state_type == "Parallel"
-                            ):
-                                self.check_pending_results(execution_arn)
-
-                            """
                             Republish the Task state event with the new
                             RetryCount and RetryTimeout set. We also adjust
                             EnteredTime above. The ASL spec is unclear on
@@ -1554,6 +1540,21 @@ class StateEngine(object):
                             """
                             self.event_dispatcher.publish(event)
                             retry_matched = True
+
+                            """
+                            Tidy up self.branch_metadata for current execution_arn
+                            but only when the state being retried is itself a
+                            Map or Parallel state (its failed branches have to
+                            be wound up). Retrying a Task that merely runs
+                            inside a branch must leave the results and the
+                            unacknowledged events of its sibling branches alone.
+                            This acknowledges the events of the failed branches,
+                            so it comes after the retry event has been published.
+                            """
+                            if execution_arn in self.branch_metadata and (
+                                state_type == "Map" or state_type == "Parallel"
+                            ):
+                                self.check_pending_results(execution_arn)
 
                         break
 
